@@ -2,6 +2,7 @@ package main
 
 import (
 	"fmt"
+	"os"
 	"go/constant"
 	"go/token"
 	"go/types"
@@ -21,6 +22,7 @@ type Frame struct {
 	entry  *State // state at entry of this activation (old() for its loop invariants)
 	names  map[string]Val
 	loopIn map[int]*State
+	loopPos map[int]int
 	top    bool
 	ins    map[*ssa.BasicBlock][]edgeIn
 }
@@ -93,14 +95,50 @@ func (c *Ctx) constVal(k *ssa.Const) Val {
 	panic(unsupported("constant " + k.String()))
 }
 
-// rpo computes a reverse postorder of the CFG ignoring back edges.
+// rpo computes a reverse postorder of the CFG ignoring back edges, in which every loop body
+// precedes the blocks reached by leaving the loop.
 func rpo(fn *ssa.Function) []*ssa.BasicBlock {
+	// natural loops
+	loops := map[*ssa.BasicBlock]map[*ssa.BasicBlock]bool{}
+	for _, b := range fn.Blocks {
+		for _, s := range b.Succs {
+			if !s.Dominates(b) {
+				continue
+			}
+			body := loops[s]
+			if body == nil {
+				body = map[*ssa.BasicBlock]bool{s: true}
+				loops[s] = body
+			}
+			work := []*ssa.BasicBlock{b}
+			for len(work) > 0 {
+				n := work[len(work)-1]
+				work = work[:len(work)-1]
+				if body[n] {
+					continue
+				}
+				body[n] = true
+				work = append(work, n.Preds...)
+			}
+		}
+	}
+	exits := func(b, s *ssa.BasicBlock) int {
+		n := 0
+		for _, body := range loops {
+			if body[b] && !body[s] {
+				n++
+			}
+		}
+		return n
+	}
 	seen := map[*ssa.BasicBlock]bool{}
 	var post []*ssa.BasicBlock
 	var dfs func(b *ssa.BasicBlock)
 	dfs = func(b *ssa.BasicBlock) {
 		seen[b] = true
-		for _, s := range b.Succs {
+		succs := append([]*ssa.BasicBlock{}, b.Succs...)
+		sort.SliceStable(succs, func(i, j int) bool { return exits(b, succs[i]) > exits(b, succs[j]) })
+		for _, s := range succs {
 			if !seen[s] && !s.Dominates(b) {
 				dfs(s)
 			}
@@ -150,6 +188,7 @@ func (c *Ctx) execBody(fr *Frame, entry *State) (*State, Val) {
 	}
 	fr.entry = entry.clone()
 	fr.loopIn = map[int]*State{}
+	fr.loopPos = map[int]int{}
 	order := rpo(fn)
 	fr.ins = map[*ssa.BasicBlock][]edgeIn{}
 	var rets []retExit
@@ -373,8 +412,19 @@ func (c *Ctx) loopHead(fr *Frame, h *ssa.BasicBlock, in *State, entryPhis map[*s
 		if hi == nil {
 			continue
 		}
-		st.heap[n] = c.declare("Hl."+n, hi.sort)
+		before := c.hget(in, n)
+		nh := c.declare("Hl."+n, hi.sort)
+		st.heap[n] = nh
+		if mi := mods[n]; !mi.whole {
+			// only cells with these (loop-invariant) keys are written in the loop body
+			var ex []string
+			for _, k := range mi.keys {
+				ex = append(ex, "(= q.r "+k+")")
+			}
+			c.assume(fmt.Sprintf("(forall ((q.r Int)) (! (=> (not %s) (= (select %s q.r) (select %s q.r))) :pattern ((select %s q.r))))", or(ex...), nh, before, nh), "")
+		}
 	}
+	fr.loopPos[ord] = len(c.script)
 	if len(names) > 0 {
 		nn := c.declare("now.l", "Int")
 		c.assume(fmt.Sprintf("(>= %s %s)", nn, in.now), "")
@@ -399,19 +449,58 @@ func (c *Ctx) loopHead(fr *Frame, h *ssa.BasicBlock, in *State, entryPhis map[*s
 func (c *Ctx) backEdge(fr *Frame, from, h *ssa.BasicBlock, st *State) {
 	ord := loopOrdinal(fr.fn, h)
 	key := c.loopKey(fr, h)
-	// adequacy of the havoc set
-	head := fr.loopIn[ord]
+	_ = h
+	// adequacy of the havoc set: every heap variable written since the loop head must be havoc'd,
+	// with a key frame only if all written keys are loop-invariant terms.
 	mods := c.loopMods[key]
-	for n, t := range st.heap {
-		if mods[n] {
+	headPos := fr.loopPos[ord]
+	late := map[string]bool{}
+	for _, l := range c.script[headPos:] {
+		if strings.HasPrefix(l, "(declare-const ") || strings.HasPrefix(l, "(define-fun ") {
+			f := strings.Fields(l)
+			late[f[1]] = true
+		}
+	}
+	need := map[string]*modInfo{}
+	for _, w := range c.writes {
+		if w.pos < headPos {
 			continue
 		}
-		if c.hget(head, n) != t {
+		mi := need[w.heap]
+		if mi == nil {
+			mi = &modInfo{}
+			need[w.heap] = mi
+		}
+		if w.key == "" || !invariantTerm(w.key, late) {
+			mi.whole = true
+		} else if !containsStr(mi.keys, w.key) {
+			mi.keys = append(mi.keys, w.key)
+		}
+	}
+	for n, t := range st.heap {
+		if need[n] == nil && c.hget(fr.loopIn[ord], n) != t && (mods == nil || mods[n] == nil) {
+			need[n] = &modInfo{whole: true}
+		}
+	}
+	for n, mi := range need {
+		old := mods[n]
+		ok := old != nil && (old.whole || (!mi.whole && subsetStr(mi.keys, old.keys)))
+		if !ok {
 			if c.loopMods[key] == nil {
-				c.loopMods[key] = map[string]bool{}
+				c.loopMods[key] = map[string]*modInfo{}
 			}
-			c.loopMods[key][n] = true
+			if old != nil && !mi.whole && !old.whole {
+				for _, k := range old.keys {
+					if !containsStr(mi.keys, k) {
+						mi.keys = append(mi.keys, k)
+					}
+				}
+			}
+			c.loopMods[key][n] = mi
 			c.restart = true
+			if os.Getenv("GOVC_DEBUG") != "" {
+				fmt.Fprintf(os.Stderr, "loopmod %s %s whole=%v keys=%v\n", key, n, mi.whole, mi.keys)
+			}
 		}
 	}
 	if c.restart {
@@ -435,7 +524,7 @@ func (c *Ctx) backEdge(fr *Frame, from, h *ssa.BasicBlock, st *State) {
 	invs := c.loopInvs(fr, h, ord)
 	for i, inv := range invs {
 		g := inv.eval(st)
-		c.oblige(st, "inv", fmt.Sprintf("%s/loop%d/inv#%d@back", fr.key, ord, i+1), g, inv.text)
+		c.oblige(st, "inv", fmt.Sprintf("%s/loop%d/inv#%d@back.b%d", fr.key, ord, i+1, from.Index), g, inv.text)
 	}
 	for phi, v := range saved {
 		fr.vals[phi] = v
@@ -1286,8 +1375,40 @@ func foldLit(g string) string {
 				return fmt.Sprint(x.Cmp(y) < 0)
 			case "bvule":
 				return fmt.Sprint(x.Cmp(y) <= 0)
+			case "bvugt":
+				return fmt.Sprint(x.Cmp(y) > 0)
+			case "bvuge":
+				return fmt.Sprint(x.Cmp(y) >= 0)
 			}
 		}
 	}
 	return g
+}
+
+func containsStr(xs []string, s string) bool {
+	for _, x := range xs {
+		if x == s {
+			return true
+		}
+	}
+	return false
+}
+
+func subsetStr(a, b []string) bool {
+	for _, x := range a {
+		if !containsStr(b, x) {
+			return false
+		}
+	}
+	return true
+}
+
+// invariantTerm: the term mentions no name introduced after the loop head.
+func invariantTerm(t string, late map[string]bool) bool {
+	for _, tok := range strings.FieldsFunc(t, func(r rune) bool { return r == '(' || r == ')' || r == ' ' }) {
+		if late[tok] {
+			return false
+		}
+	}
+	return true
 }
